@@ -43,7 +43,8 @@ def run(m, runs=None, extra=()):
     try:
         for prop in m["props"]:
             cmd = [os.path.join(VERIF, "vcheck"), prop, "--tier", "quick", "--no-selftest"] + (["--runs", str(runs)] if runs else []) + list(extra)
-            env = dict(os.environ, VERIF_REPO=d, VERIF_MUTANT="1")
+            env = dict(os.environ, VERIF_REPO=d, VERIF_MUTANT="1", VERIF_REPLAY_DIR=os.path.join(d, "_replays"),
+                       VERIF_EVIDENCE_DIR=os.path.join(d, "_evidence"))
             p = subprocess.run(cmd, capture_output=True, text=True, env=env, cwd=VERIF)
             sigs = [ln for ln in p.stdout.splitlines() if ln.startswith(("violation:", "VIOLATION", "HARNESS-ERROR"))]
             verdict = {0: "MISSED", 1: "CAUGHT", 2: "HARNESS-ERROR"}.get(p.returncode, str(p.returncode))
@@ -52,9 +53,6 @@ def run(m, runs=None, extra=()):
                 print(p.stdout[-1500:], p.stderr[-1500:])
     finally:
         shutil.rmtree(d, ignore_errors=True)
-        # replays written by mutant runs are not evidence of anything on the real tree
-        subprocess.run(["git", "-C", VERIF, "clean", "-fdq", "replays"], check=False)
-        subprocess.run(["git", "-C", VERIF, "checkout", "-q", "--", "evidence"], check=False, capture_output=True)
 
 
 def main():
